@@ -208,15 +208,11 @@ theorem pAttach_ok (d rest : Bytes) (e : Entry) (off : Nat) (he : EntryEnc e)
 def slotOf (e : Entry) : Slot := { key := e.key, typ := e.c.typ, n := e.n, c := none }
 def slotDone (e : Entry) : Slot := { key := e.key, typ := e.c.typ, n := e.n, c := some e.c }
 
-theorem putCV_append (key typ n : Nat) (slots : List Slot) (h : ∀ s ∈ slots, s.key < key) :
-    putCV key typ n slots = slots ++ [{ key, typ, n }] := by
-  induction slots with
+theorem putCVd_cons (key typ n : Nat) (slots : List Slot) (h : ∀ s ∈ slots.head?, s.key < key) :
+    putCVd key typ n slots = { key, typ, n } :: slots := by
+  cases slots with
   | nil => rfl
-  | cons s r ih =>
-    have hs : s.key < key := h s (by simp)
-    simp only [putCV]
-    rw [if_neg (by omega), if_neg (by omega), ih (fun x hx => h x (by simp [hx]))]
-    rfl
+  | cons s r => simp only [putCVd]; rw [if_pos (h s (by simp))]
 
 theorem typ_cases (c : Cont) : c.typ = 1 ∨ c.typ = 2 ∨ c.typ = 3 := by
   cases c <;> simp [Cont.typ, cArray, cBitmap, cRun]
@@ -234,10 +230,10 @@ theorem encOffsets_length (off : Nat) (cs : List Entry) : (encOffsets off cs).le
   | nil => rfl
   | cons v vs ih => simp only [encOffsets, List.length_append, leBytes_length, ih, List.length_cons]; omega
 
-theorem pHdrLoop_ok (cs : List Entry) (acc : List Slot) (rest : Bytes)
-    (hcs : ∀ e ∈ cs, EntryEnc e) (hasc : cs.Pairwise (fun a b => a.key < b.key))
-    (hacc : ∀ s ∈ acc, ∀ e ∈ cs, s.key < e.key) :
-    pHdrLoop cs.length (cs.flatMap encHeader ++ rest) acc = .ok (acc ++ cs.map slotOf) := by
+theorem pHdrLoop_ok (cs : List Entry) (acc : List Entry) (rest : Bytes)
+    (hcs : ∀ e ∈ cs, EntryEnc e) (hasc : (acc ++ cs).Pairwise (fun a b => a.key < b.key)) :
+    pHdrLoop cs.length (cs.flatMap encHeader ++ rest) (acc.map slotOf).reverse
+      = .ok ((acc ++ cs).map slotOf) := by
   induction cs generalizing acc with
   | nil => simp [pHdrLoop]
   | cons e t ih =>
@@ -272,14 +268,18 @@ theorem pHdrLoop_ok (cs : List Entry) (acc : List Slot) (rest : Bytes)
     rw [sub_tail _ buf 12 hlen, d12]
     simp only [Res.ok_bind]
     have hn : e.n - 1 + 1 = e.n := by have := he.npos; omega
-    rw [hn, putCV_append _ _ _ acc (fun s hs => hacc s hs e (by simp))]
-    have hasc' := List.pairwise_cons.mp hasc
-    rw [ih _ (fun x hx => hcs x (by simp [hx])) hasc'.2]
-    · simp [slotOf, List.append_assoc]
-    · intro s hs x hx
-      rcases List.mem_append.mp hs with h | h
-      · exact hacc s h x (by simp [hx])
-      · simp at h; subst h; exact hasc'.1 x hx
+    have hhead : ∀ s ∈ ((acc.map slotOf).reverse).head?, s.key < e.key := by
+      intro s hs
+      rw [List.head?_reverse] at hs
+      have hmem : s ∈ acc.map slotOf := List.mem_of_getLast? hs
+      obtain ⟨a, ha, rfl⟩ := List.mem_map.mp hmem
+      have := (List.pairwise_append.mp hasc).2.2 a ha e (by simp)
+      exact this
+    rw [hn, putCVd_cons _ _ _ _ hhead]
+    have := ih (acc ++ [e]) (fun x hx => hcs x (by simp [hx])) (by simpa using hasc)
+    simp only [List.map_append, List.map_cons, List.map_nil, List.reverse_append, List.reverse_cons,
+      List.reverse_nil, List.nil_append, List.cons_append, List.append_assoc] at this ⊢
+    exact this
 
 theorem payload_pos (e : Entry) (he : EntryEnc e) : 0 < e.c.payload.length := by
   rw [payload_length]
@@ -289,28 +289,12 @@ theorem payload_pos (e : Entry) (he : EntryEnc e) : 0 < e.c.payload.length := by
   | bitmap bs => rw [hcase] at hc; simp only [contEnc, bitmapBytes] at hc; simp only [Cont.size]; omega
   | run rs => simp only [Cont.size]; omega
 
-theorem modify_append_length {α : Type} (a b : List α) (x : α) (f : α → α) :
-    (a ++ x :: b).modify a.length f = a ++ f x :: b := by
-  induction a with
-  | nil => simp
-  | cons y a ih => simp [ih]
-
-theorem setSlot_mid (done todo : List Entry) (e : Entry) :
-    setSlot (done.map slotDone ++ (e :: todo).map slotOf) done.length e.c
-      = (done ++ [e]).map slotDone ++ todo.map slotOf := by
-  unfold setSlot
-  have := modify_append_length (done.map slotDone) (todo.map slotOf) (slotOf e)
-    (fun s => { s with c := some e.c })
-  rw [List.length_map] at this
-  rw [List.map_cons, this]
-  simp [slotOf, slotDone]
-
 theorem pOffLoop_ok (d : Bytes) (todo done : List Entry) (off oo : Nat) (rest : Bytes)
     (hcs : ∀ e ∈ todo, EntryEnc e)
     (hdrop : d.drop off = todo.flatMap (fun e => e.c.payload))
     (hoff : off ≤ d.length) (hd : d.length < 2 ^ 32) :
-    pOffLoop d todo.length (encOffsets off todo ++ rest) done.length
-        (done.map slotDone ++ todo.map slotOf) oo
+    pOffLoop d todo.length (encOffsets off todo ++ rest) (done.map slotDone).reverse
+        (todo.map slotOf) oo
       = .ok ((done ++ todo).map slotDone, if todo = [] then oo else d.length) := by
   induction todo generalizing done off oo with
   | nil => simp [pOffLoop]
@@ -323,7 +307,7 @@ theorem pOffLoop_ok (d : Bytes) (todo done : List Entry) (off oo : Nat) (rest : 
       rw [hdrop']; simp
     rw [List.length_drop] at hl
     have hlt : off < d.length := by omega
-    simp only [List.length_cons, pOffLoop, encOffsets, List.append_assoc]
+    simp only [List.length_cons, pOffLoop, encOffsets, List.append_assoc, List.map_cons]
     generalize hB : leBytes 4 off ++ (encOffsets (off + e.c.size) t ++ rest) = buf
     have d0 : buf.drop 0 = leBytes 4 off ++ (encOffsets (off + e.c.size) t ++ rest) := by rw [← hB]; rfl
     have d4 : buf.drop 4 = encOffsets (off + e.c.size) t ++ rest := by
@@ -332,32 +316,31 @@ theorem pOffLoop_ok (d : Bytes) (todo done : List Entry) (off oo : Nat) (rest : 
     rw [rd_of_drop _ buf _ 0 4 off d0 (by omega) (by show off < 4294967296; omega)]
     simp only [Res.ok_bind]
     rw [if_neg (by omega)]
-    have hidx : citerIdx (done.map slotDone ++ (e :: t).map slotOf) done.length = done.length := by
-      simp [citerIdx]
-    rw [hidx]
-    have hget : (done.map slotDone ++ (e :: t).map slotOf)[done.length]? = some (slotOf e) := by
-      rw [List.getElem?_append_right (by simp)]; simp
-    rw [hget]
     simp only [slotOf]
     rw [pAttach_ok d _ e off he hdrop' hoff]
-    simp only [Res.ok_bind, Res.pure_eq]
+    simp only [Res.ok_bind]
     rw [sub_tail _ buf 4 hlen, d4]
     simp only [Res.ok_bind]
-    have hset := setSlot_mid done t e
-    rw [hset]
     have hdrop2 : d.drop (off + e.c.size) = t.flatMap (fun e => e.c.payload) := by
       have := congrArg (List.drop e.c.size) hdrop'
       rw [List.drop_drop] at this
       rw [this]; exact List.drop_left' (payload_length e.c)
     rw [payload_length] at hl
-    have := ih (done ++ [e]) (off + e.c.size) (off + e.c.size) (fun x hx => hcs x (by simp [hx])) hdrop2 (by omega)
-    simp only [List.length_append, List.length_cons, List.length_nil] at this
-    rw [this]
-    simp only [List.append_assoc, List.cons_append, List.nil_append, reduceCtorEq, ↓reduceIte]
-    congr 2
-    split
-    · next ht => subst ht; simp at hl; omega
-    · rfl
+    cases t with
+    | nil =>
+      simp only [List.map_nil, List.length_nil, pOffLoop, Res.pure_eq, Slot.attach, List.reverse_reverse]
+      simp only [List.flatMap_nil, List.length_nil] at hl
+      have : off + e.c.size = d.length := by omega
+      simp [slotDone, this]
+    | cons e2 t2 =>
+      simp only [List.map_cons]
+      have := ih (done ++ [e]) (off + e.c.size) (off + e.c.size) (fun x hx => hcs x (by simp [hx])) hdrop2 (by omega)
+      simp only [List.map_append, List.map_cons, List.map_nil, List.reverse_append, List.reverse_cons,
+        List.reverse_nil, List.nil_append, List.cons_append, List.length_cons, slotOf, slotDone,
+        List.append_assoc] at this
+      simp only [Slot.attach, List.length_cons, slotOf]
+      rw [this]
+      simp [slotDone]
 
 theorem slotsToEntries_done (cs : List Entry) : slotsToEntries (cs.map slotDone) = cs := by
   induction cs with
@@ -418,12 +401,14 @@ theorem unmarshalPilosa_writeUnopt (b : Bitmap)
   rw [if_neg (by omega), if_neg (by omega)]
   rw [sub_tail _ d 8 (by omega), d8]
   simp only [Res.ok_bind]
-  rw [pHdrLoop_ok cs [] _ hcs hasc (by simp)]
-  simp only [Res.ok_bind, List.nil_append]
+  have hH0 := pHdrLoop_ok cs [] (encOffsets (8 + cs.length * 16) cs ++ PL) hcs (by simpa using hasc)
+  simp only [List.map_nil, List.reverse_nil, List.nil_append] at hH0
+  rw [hH0]
+  simp only [Res.ok_bind]
   rw [sub_tail _ d (8 + cs.length * 12) (by omega), d8']
   simp only [Res.ok_bind]
   have := pOffLoop_ok d cs [] (8 + cs.length * 16) (8 + cs.length * 12) PL hcs (by rw [d8'', hPL]) (by omega) hsize
-  simp only [List.map_nil, List.nil_append, List.length_nil] at this
+  simp only [List.map_nil, List.nil_append, List.reverse_nil] at this
   rw [this]
   simp only [Res.ok_bind, slotsToEntries_done]
   have hoo : (if cs = [] then 8 + cs.length * 12 else d.length) = d.length := by
